@@ -46,13 +46,14 @@ try:
                 dest = rel
             else:
                 # a demo file stored flat in the seed directory goes where meta.json / DEMO_DEST.txt says it lives
+                arrow = _re.search(_re.escape(rel) + r"\s*->\s*([\w./-]+\.go)", hints)
                 mm = _re.search(r"([\w./-]+/)" + _re.escape(rel), hints)
-                dest = os.path.join(mm.group(1) if mm else default_dir, rel)
+                dest = arrow.group(1) if arrow else os.path.join(mm.group(1) if mm else default_dir, rel)
             dest = dest.lstrip("./")
             dst = os.path.join(wt, dest); os.makedirs(os.path.dirname(dst), exist_ok=True); shutil.copy(os.path.join(d, rel), dst)
             placed.append(dest)
     run = meta["demo"]["run"]
-    for old in ("/tmp/seed/wt-%s" % meta["property"], "<worktree>", "<your-worktree>", "<repo>", "<WORKTREE>", "$WT", "${WT}", "<wt>", "<WT>", "<worktree-dir>"):
+    for old in ("/tmp/seed/wt2-%s" % meta["property"], "/tmp/seed/wt-%s" % meta["property"], "<worktree>", "<your-worktree>", "<repo>", "<WORKTREE>", "$WT", "${WT}", "<wt>", "<WT>", "<worktree-dir>"):
         run = run.replace(old, wt)
     need_overlay = ".pb/overlay.json" in run or "-overlay" in run
     put_demos()
